@@ -421,47 +421,108 @@ def run(ctx, rep):
            kind="table")
 
     # ------------------------------------------------------------------ R18.6
+    # command-level model evaluation: the cmd_* methods (and the helpers they call) are interpreted on enumerated histories
+    # of register / unregister / query with a scripted clock and compared with a reference model of the documented behaviour
     fq = ctx.func(RS + ".cmd_query")
-    gq = ctx.cfg(fq, raises="default")
-    domq = Q.dominators(gq)
-    qp = A.params(fq.node)
-    srt = [c for c in A.find_calls(fq.node, "sorted")]
-    oks = False
-    for c in srt:
-        key = [k.value for k in c.keywords if k.arg == "key"]
-        if key and isinstance(key[0], ast.Lambda) and isinstance(key[0].body, ast.Subscript) and \
-                ctx.try_fold(key[0].body.slice) == 1 and "self.services" in A.src(c.args[0]) and ".items()" in A.src(c.args[0]) \
-                and not any(k.arg == "reverse" for k in c.keywords):
-            oks = True
-    rep.ob("R18.6", "cmd_query: entries are visited in ascending order of their last refresh", oks,
-           "sorted(self.services[name].items(), key=<time stamp>)" if oks else
-           "the reply is not ordered by ascending refresh time", fq.loc)
-    old = [n for n in A.walk(fq.node) if isinstance(n, ast.Assign) and isinstance(n.value, ast.BinOp)
-           and isinstance(n.value.op, ast.Sub) and "time.time()" in A.src(n.value.left) and "pruning_timeout" in A.src(n.value.right)]
-    okold = len(old) == 1
-    rep.ob("R18.6", "cmd_query: the staleness bound is now minus the pruning interval", okold,
-           "`%s`" % A.norm(old[0]) if okold else "the staleness bound changed", fq.loc, kind="site")
-    if okold and oks:
-        ov = old[0].targets[0].id
-        fors = [n for n in A.walk(fq.node) if isinstance(n, ast.For) and isinstance(n.target, ast.Tuple)]
-        okb = False
-        if fors:
-            lp = fors[0]
-            av, tv = [A.src(e) for e in lp.target.elts]
-            ifs = [n for n in lp.body if isinstance(n, ast.If)]
-            if ifs:
-                t = ifs[0].test
-                stale_true = isinstance(t, ast.Compare) and A.src(t.left) == tv and isinstance(t.ops[0], ast.Lt) and \
-                    A.src(t.comparators[0]) == ov
-                rem = A.find_calls(ast.Module(body=ifs[0].body, type_ignores=[]), "self._remove_service")
-                app = [c for c in A.calls(ast.Module(body=ifs[0].orelse, type_ignores=[]))
-                       if isinstance(c.func, ast.Attribute) and c.func.attr == "append" and A.src(c.args[0]) == av]
-                okb = stale_true and bool(rem) and bool(app) and [A.src(a) for a in rem[0].args] == [qp[2], av]
-        rep.ob("R18.6", "cmd_query: entries older than the bound are pruned, the others are returned", okb,
-               "`if t < oldest: self._remove_service(name, addrinfo) else: servers.append(addrinfo)`" if okb else
-               "the stale/fresh split of cmd_query changed (stale entries answered or fresh ones pruned)", fq.loc)
+    rep.analysed(fq)
+    methods = {nm: m.node for nm, m in rs.methods.items()}
+    TMO = 20.0
+    H1, H2, H3 = "10.0.0.1", "10.0.0.2", "10.0.0.3"
+
+    def run_history(ops):
+        clock = [0.0]
+        fired = []
+        hooks = {"time.time": lambda: clock[0],
+                 "self.on_service_added": lambda n, a: fired.append(("added", n, a)),
+                 "self.on_service_removed": lambda n, a: fired.append(("removed", n, a))}
+        for lv in ("debug", "info", "warn", "warning", "error", "exception"):
+            hooks["self.logger." + lv] = lambda *a: None
+        state = {"services": {}, "pruning_timeout": TMO}
+        extra = {"__calls__": hooks, "__methods__": {k: v for k, v in methods.items() if k not in ("on_service_added", "on_service_removed")}}
+        ref, ref_fired = {}, []
+        for op in ops:
+            clock[0] = op[0]
+            kind, args = op[1], list(op[2:])
+            fired_before, ref_before = len(fired), len(ref_fired)
+            try:
+                got = MI.call_method(methods["cmd_" + kind], state, args, extra)
+                if isinstance(got, list):
+                    got = tuple(got)
+            except MI.Raised as r:
+                got = "raises " + r.name
+            # reference model
+            now = op[0]
+            if kind == "register":
+                host, names, port = args
+                for n in names:
+                    key = n.upper()
+                    if (host, port) not in ref.get(key, {}):
+                        ref_fired.append(("added", key, (host, port)))
+                    ref.setdefault(key, {})[(host, port)] = now
+                want = "OK"
+            elif kind == "unregister":
+                host, port = args
+                for key in list(ref):
+                    if (host, port) in ref[key]:
+                        del ref[key][(host, port)]
+                        if not ref[key]:
+                            del ref[key]
+                        ref_fired.append(("removed", key, (host, port)))
+                want = "OK"
+            else:
+                key = args[1].upper()
+                live = []
+                for addr, t in sorted(ref.get(key, {}).items(), key=lambda x: x[1]):
+                    if t < now - TMO:
+                        del ref[key][addr]
+                        ref_fired.append(("removed", key, addr))
+                    else:
+                        live.append(addr)
+                if key in ref and not ref[key]:
+                    del ref[key]
+                want = tuple(live)
+            if got != want:
+                return "t=%s %s%r answers %r, expected %r" % (now, kind, tuple(args), got, want)
+            if state["services"] != ref:
+                return "t=%s after %s%r the table is %r, expected %r" % (now, kind, tuple(args), state["services"], ref)
+            if sorted(fired[fired_before:]) != sorted(ref_fired[ref_before:]):
+                return "t=%s %s%r notifies %r, expected %r" % (now, kind, tuple(args), fired[fired_before:], ref_fired[ref_before:])
+        return None
+    histories = {
+        "registration, keep-alive and query": [
+            (0, "register", H1, ("foo",), 1), (5, "register", H2, ("foo", "bar"), 2), (10, "register", H1, ("foo",), 1),
+            (12, "query", H3, "FOO"), (12, "query", H3, "foo"), (12, "query", H3, "Bar"), (12, "query", H3, "baz")],
+        "mixed-case names meet": [
+            (0, "register", H1, ("Foo",), 1), (1, "register", H2, ("fOO",), 2), (2, "query", H3, "foo"), (3, "unregister", H1, 1),
+            (4, "query", H3, "FOO")],
+        "pruning: stale entries leave, the boundary stays, order is by refresh time": [
+            (0, "register", H1, ("foo",), 1), (4, "register", H2, ("foo",), 2), (9, "register", H3, ("foo",), 3),
+            (15, "register", H1, ("foo",), 1), (24, "query", H1, "foo"), (24.5, "query", H1, "foo"), (29, "query", H1, "foo"),
+            (35, "query", H1, "foo"), (36, "query", H1, "foo"), (36, "query", H1, "foo")],
+        "a keep-alive protects from pruning": [
+            (0, "register", H1, ("foo",), 1), (15, "register", H1, ("foo",), 1), (30, "query", H2, "foo"), (36, "query", H2, "foo")],
+        "unregister removes the server under every name and only that server": [
+            (0, "register", H1, ("a", "b", "c"), 1), (1, "register", H2, ("b",), 1), (2, "register", H1, ("b",), 2),
+            (3, "unregister", H1, 1), (4, "query", H3, "a"), (4, "query", H3, "b"), (4, "query", H3, "c"),
+            (5, "unregister", H1, 1), (6, "unregister", H3, 9), (7, "unregister", H2, 1), (8, "unregister", H1, 2), (9, "query", H3, "b")],
+        "re-registration after removal counts as new": [
+            (0, "register", H1, ("foo",), 1), (1, "unregister", H1, 1), (2, "register", H1, ("foo",), 1), (50, "query", H2, "foo"),
+            (51, "register", H1, ("foo",), 1), (52, "query", H2, "foo")],
+    }
+    n_ops = 0
+    for title, ops in sorted(histories.items()):
+        n_ops += len(ops)
+        try:
+            bad = run_history(ops)
+        except AnalysisError as ex:
+            bad = "cannot evaluate: %s" % ex
+        rep.ob("R18.6", "registry commands, history '%s'" % title, bad is None,
+               "%d commands agree with the reference model (answers, table contents, notifications)" % len(ops) if bad is None else bad,
+               fq.loc, kind="table")
+    rep.floor("R18.6", "commands evaluated on the registry model", n_ops, 30)
     rets = [n for n in A.walk(fq.node) if isinstance(n, ast.Return)]
-    okret = any(A.src(r.value).startswith("tuple(") for r in rets) and any(A.src(r.value) == "()" for r in rets)
+    okret = bool(rets) and all(isinstance(r.value, ast.Tuple) or (isinstance(r.value, ast.Call) and A.call_name(r.value) == "tuple")
+                               for r in rets)
     rep.ob("R18.6", "cmd_query: replies are tuples (serializable)", okret, "tuple(servers) / ()" if okret else
            "cmd_query returns a non-tuple", fq.loc, kind="site")
 
